@@ -206,6 +206,24 @@ pub fn run(e: &'static Engine) {
         }));
     }
     e.par(jobs);
+    // short payloads in forced (larger) versions: pure padding blocks, segments ending at a block boundary
+    let total: u32 = e.tier.pick(6400, 96000);
+    let shards = e.tier.pick(32u32, 96);
+    let mut jobs: Vec<Job> = Vec::new();
+    for _ in 0..shards {
+        jobs.push(Box::new(move |jc: &mut JobCtx| {
+            let strat = (crate::gens::padded_forced(), any::<u64>(), any::<bool>(), 0u8..4).prop_map(|((b, fam, _), seed, full, k)| Case {
+                build: b,
+                fam,
+                corrupt: if k == 0 { Some((seed, full)) } else { None },
+            });
+            jc.run_prop(2 << 20, &strat, total / shards, to_json, |c, o| {
+                o.label("part:padded_forced_version");
+                check(c, o)
+            });
+        }));
+    }
+    e.par(jobs);
     e.put("cells_total", json!(160 * 8));
     e.set_exhaustive(false, "all 160 (version, level) pairs x 8 masks are enumerated in every run; payloads and corruption patterns are sampled");
 }
